@@ -28,7 +28,7 @@ package xpush
 //@   ensures name == protocol.OptionWriteQLen ==> (isnil(result) <==> is_int(value) && 0 <= int_of(value))
 //@   ensures name == protocol.OptionWriteQLen && !isnil(result) ==> result == protocol.ErrBadValue
 //@   ensures name == protocol.OptionWriteQLen && isnil(result) ==> s.sendQLen == int_of(value)
-//@   ensures !isnil(result) ==> unchanged(s.bestEffort, s.failNoPeers, s.sendExpire, s.sendQLen)
+//@   ensures !isnil(result) && (name == protocol.OptionSendDeadline || name == protocol.OptionBestEffort || name == protocol.OptionFailNoPeers || name == protocol.OptionWriteQLen) ==> unchanged(s.bestEffort, s.failNoPeers, s.sendExpire, s.sendQLen)
 //@
 //@ func (*socket).GetOption
 //@   ensures option != protocol.OptionSendDeadline && option != protocol.OptionBestEffort && option != protocol.OptionFailNoPeers && option != protocol.OptionWriteQLen && option != protocol.OptionRaw ==> result1 == protocol.ErrBadOption && isnil(result0)
